@@ -166,6 +166,9 @@ func runC02(p *core.Prog, r *core.Report, tier string) {
 					return
 				}
 				d := ds.D(u.X)
+				if isTimerDrain(u) {
+					return // `if !t.Stop() { <-t.C }`: the tick of a timer that has fired is already in the channel, the receive cannot wait
+				}
 				r.Check(d.Kind == "field" && d.Name == "runCh", "C02.l", fmt.Sprintf("%s|plain-receive|%s", base, d.String()), p.Pos(u.Pos()), "a receive outside the select takes the run signal", "outside its select the job goroutine waits on "+d.String()+", not on the run channel: a claimed job's run signal is never taken (the request was reported as accepted, the job never runs) and the goroutine waits for ever")
 			})
 			selBlock := sel.Block()
@@ -954,4 +957,55 @@ func jobKindConstants(p *core.Prog, ds *core.Describer, fns []*ssa.Function, fie
 		})
 	}
 	return oneOff, periodic
+}
+
+// isTimerDrain: the receive is from the C field of a *time.Timer, in a block reached only when a call of Stop on a
+// timer has returned false (the stop-and-drain idiom before Reset).
+func isTimerDrain(u *ssa.UnOp) bool {
+	ld, ok := u.X.(*ssa.UnOp)
+	if !ok || ld.Op != token.MUL {
+		return false
+	}
+	fa, ok := ld.X.(*ssa.FieldAddr)
+	if !ok {
+		return false
+	}
+	pt, ok := fa.X.Type().Underlying().(*types.Pointer)
+	if !ok {
+		return false
+	}
+	nt, ok := pt.Elem().(*types.Named)
+	if !ok || nt.Obj().Pkg() == nil || nt.Obj().Pkg().Path() != "time" || nt.Obj().Name() != "Timer" {
+		return false
+	}
+	for _, b := range u.Parent().Blocks {
+		if len(b.Instrs) == 0 {
+			continue
+		}
+		iff, ok := b.Instrs[len(b.Instrs)-1].(*ssa.If)
+		if !ok || len(b.Succs) != 2 {
+			continue
+		}
+		cond := iff.Cond
+		falseSucc := b.Succs[1]
+		if n, ok := cond.(*ssa.UnOp); ok && n.Op == token.NOT {
+			cond = n.X
+			falseSucc = b.Succs[0]
+		}
+		c, ok := cond.(*ssa.Call)
+		if !ok {
+			continue
+		}
+		callee := c.Call.StaticCallee()
+		if callee == nil || callee.Name() != "Stop" || callee.Pkg == nil || callee.Pkg.Pkg.Path() != "time" {
+			continue
+		}
+		if falseSucc != u.Block() && len(falseSucc.Preds) == 1 && falseSucc.Dominates(u.Block()) {
+			return true
+		}
+		if falseSucc == u.Block() && len(falseSucc.Preds) == 1 {
+			return true
+		}
+	}
+	return false
 }
